@@ -684,6 +684,20 @@ where
     Ok(InitOut { state, verifier_share })
 }
 
+/// As `init_wire_as`, with the decoded input share passed through `edit` before `verify_init` (for
+/// shares that only exist as in-memory objects, e.g. one carrying a field its type does not use).
+pub fn init_wire_edit<V, const K: usize>(vdaf: &V, agg_param: &V::AggregationParam, a: &AggInput<K>, decode_id: usize, edit: impl FnOnce(V::InputShare) -> V::InputShare) -> Result<InitOut<V, K>, Fail>
+where
+    V: Aggregator<K, 16>,
+{
+    let ps = step("decode_public_share", a.agg_id, || V::PublicShare::get_decoded_with_param(vdaf, &a.public_share))?;
+    let is = step("decode_input_share", a.agg_id, || V::InputShare::get_decoded_with_param(&(vdaf, decode_id), &a.input_share))?;
+    let is = edit(is);
+    let (state, share) = step("verify_init", a.agg_id, || vdaf.verify_init(&a.verify_key, &a.ctx, a.agg_id, agg_param, &a.nonce, &ps, &is))?;
+    let verifier_share = step("encode_verifier_share", a.agg_id, || share.get_encoded())?;
+    Ok(InitOut { state, verifier_share })
+}
+
 /// Decode verifier shares (with `state` as decoding parameter) and combine them.
 pub fn combine_wire<V, const K: usize>(vdaf: &V, ctx: &[u8], agg_param: &V::AggregationParam, state: &V::VerifyState, shares: &[Vec<u8>]) -> Result<Vec<u8>, Fail>
 where
